@@ -61,6 +61,15 @@ def configs(tier):
                                 out.append(dict(kind="solve", shape=shape, method=method, num_iter=n, form=form, aa=0, fault="linear", weights="concrete", L=L, L_init=Li))
             if not quick or shape in ([2, 2], [3]):
                 out.append(dict(kind="solve", shape=shape, method=method, num_iter=iters[0], form="full", aa=0, fault="weights", weights="concrete"))
+    # concolic: concrete mass distributions through the REAL mobility and cost routines, the three
+    # tolerances symbolic -- decides the stopping logic against the distances the code really produces
+    for shape in ([[2, 2], [3, 2]] if quick else [[4], [2, 2], [3, 2], [3, 3], [2, 1, 2]]):
+        for method in ("newton", "bregman", "bregman_adaptive"):
+            for draw in ((0, 1) if quick else (0, 1, 2, 3)):
+                for aa in (0, 2):
+                    if aa and (draw or method == "bregman_adaptive"):
+                        continue
+                    out.append(dict(kind="stopping", shape=shape, method=method, num_iter=5 if quick else 7, aa=aa, draw=draw))
     for shape in shapes + ([[1, 2, 2]] if quick else [[2, 2, 2]]):
         for method in ("newton", "bregman"):
             for mode in ("RAVIART_THOMAS", "CONSTANT_SUBCELL_PROJECTION", "CONSTANT_CELL_PROJECTION"):
@@ -76,7 +85,7 @@ def configs(tier):
 def validate_filter(cfg):
     # instrumented runs use arbitrary face weights, the plain import the real mobility: only the
     # self-consistency claims of the "outputs" configurations are comparable between the two
-    return cfg["kind"] == "outputs"
+    return cfg["kind"] in ("outputs", "stopping")
 
 
 # stub state (reset per body)
@@ -109,6 +118,9 @@ def install_stubs():
             return super().solve(b, **k)
 
     ENGINE.splu_hook = FaultyLU
+    from . import c06
+
+    c06.install_stubs()  # scipy.stats.hmean on object arrays
 
     real_sp = aa.sp
 
@@ -122,7 +134,7 @@ def install_stubs():
 
             if npx.has_sym(A) or npx.has_sym(b):
                 m = A.shape[1]
-                if S.symbolic():
+                if S.symbolic() and not ENGINE.const_mode:
                     g = S.fresh("gamma", m)
                 else:
                     Af = np.array([[S.tofloat(v) for v in row] for row in A], dtype=float)
@@ -225,6 +237,8 @@ def body(cfg):
         _norm_uf()
     if cfg["kind"] == "outputs":
         return body_outputs(cfg, darsia)
+    if cfg["kind"] == "stopping":
+        return body_stopping(cfg, darsia)
     n_it = cfg["num_iter"]
     opts = {"formulation": cfg["form"], "linear_solver": "direct", "num_iter": n_it, "aa_depth": cfg["aa"]}
     if cfg["method"] == "bregman_adaptive":
@@ -315,6 +329,45 @@ def body(cfg):
             crit = S.false()
     S.claim("reported_converged_only_if_stopping_criteria_met", S.implies(conv, crit))
     S.observe("fired", bool(ST["fired"]))
+
+
+def body_stopping(cfg, darsia):
+    """concrete data, real mobility / cost / shrinkage; symbolic tolerances"""
+    from symx.core import ENGINE
+
+    if S.symbolic():
+        ENGINE.const_mode = True  # numeric sqrt / norm / linear solve on constants
+    rng = np.random.default_rng(100 + cfg["draw"])
+    shape = tuple(cfg["shape"])
+    nc = int(np.prod(shape))
+    vals = [int(v) for v in rng.integers(-40, 41, size=nc - 1)]
+    f = np.zeros(nc, dtype=object if S.instrumented() else float)
+    for i, v in enumerate(vals):
+        f[i] = S.const(f"{v}/8")
+    f[nc - 1] = S.const(f"{-sum(vals)}/8")
+    tr = S.real("tol_residual", lo="1/1000000", hi=2)
+    ti = S.real("tol_increment", lo="1/1000000", hi=2)
+    td = S.real("tol_distance", lo="1/1000000", hi=2)
+    n_it = cfg["num_iter"]
+    opts = {"formulation": "full", "linear_solver": "direct", "num_iter": n_it, "aa_depth": cfg["aa"], "tol_residual": tr, "tol_increment": ti, "tol_distance": td}
+    if cfg["method"] == "bregman_adaptive":
+        opts["bregman_update"] = lambda it: it % 2 == 1
+    grid, w1 = _make(darsia, cfg, opts)
+    nf = int(grid.num_faces)
+    dist, sol, info = w1._solve(f)
+    hist = info["convergence_history"]
+    conv = info["converged"]
+    n_rec = len(hist["distance"])
+    S.claim("concolic_distance_is_cost_of_returned_flux", S.eq(dist, w1.l1_dissipation(sol[:nf])))
+    if cfg["method"] == "newton":
+        crit = S.and_(n_rec > 2, S.lt(hist["residual"][-1], tr * hist["residual"][0]), S.lt(hist["flux_increment"][-1], ti * hist["flux_increment"][0]), S.lt(hist["distance_increment"][-1], td)) if n_rec else S.false()
+    else:
+        crit = S.and_(n_rec > 2, S.lt(hist["aux_force_increment"][-1], ti * hist["aux_force_increment"][0]), S.lt(hist["distance_increment"][-1], td * dist), S.lt(hist["mass_conservation_residual"][-1], tr)) if n_rec else S.false()
+    S.claim("concolic_converged_only_if_stopping_criteria_met_for_these_tolerances", S.implies(conv, crit))
+    S.claim("concolic_criteria_met_in_last_iteration_implies_converged", S.implies(crit, conv))
+    S.claim("concolic_not_converged_runs_all_iterations", S.or_(conv, n_rec == n_it + (1 if cfg["method"] == "newton" else 0), n_rec == n_it))
+    S.claim("concolic_recorded_increments_are_nonnegative", S.and_([S.le(0, x) for x in hist["distance_increment"]]))
+    S.observe("n_rec", n_rec)
 
 
 def body_outputs(cfg, darsia):
